@@ -899,7 +899,6 @@ func reachesForward(b1, b2 *ssa.BasicBlock) bool {
 	return dfs(b1)
 }
 
-
 // checkV1KeysAndPaths: three rules on the v1 string classifier.
 // R13.10 a string built from several run-time parts to serve as a map key keeps the parts apart: a format with two verbs
 // next to one another (or a concatenation of two run-time strings without a constant between them) gives the same key
@@ -1128,7 +1127,6 @@ func ambiguousStringBuild(v ssa.Value) string {
 	}
 	return ""
 }
-
 
 // emptyScanFact: block b is reached only when a result of the named scan function (called in the same function) was found
 // nil or empty.
